@@ -2,6 +2,7 @@ package mon
 
 import (
 	"fmt"
+	"regexp"
 	"sort"
 	"strings"
 
@@ -84,6 +85,21 @@ func (v *ugcVocab) judgeTag(name string, attrs []html.Attribute, where string, r
 func runC04(ctx *core.Ctx) {
 	ctx.Rule = "hostile generator + corpus mutants + verbatim historical vectors + every string of L lexical pieces against StrictPolicy() and UGCPolicy(); Strict outputs must re-tokenise and re-parse (8 contexts) to text only; UGC outputs are judged token by token and DOM node by DOM node (8 contexts) against a hand-transcribed table of the documented UGC vocabulary (elements, attribute names per element, http/https/mailto/relative URLs, no event-handler/style attribute); UGCPolicy() must agree with the transcription built from primitive builder calls; conforming UGC documents must round-trip up to the predicted rel=nofollow; non-trivial = input contains '<' and output is non-empty, distinct by (policy, input)"
 	ctx.Assume("the vocabulary table is transcribed from the comments of policies.go/helpers.go, not generated from the policy", "elements implied by the tree builder (html head body tbody tr colgroup) are not judged")
+	// a neighbour in the same process has already taken its own copies of the shipped policies and
+	// opened them up completely; the copies this monitor asks for afterwards must be the shipped ones
+	for _, mk := range []func() *bluemonday.Policy{bluemonday.StrictPolicy, bluemonday.StripTagsPolicy, bluemonday.UGCPolicy, bluemonday.NewPolicy} {
+		p := mk()
+		p.AllowElements("b", "i", "script", "style", "iframe", "object", "form", "input", "base", "meta", "link", "embed")
+		p.AllowAttrs("onclick", "onerror", "style", "href", "src", "action", "id").Globally()
+		p.AllowNoAttrs().OnElements("a", "img", "span", "font", "iframe")
+		p.AllowURLSchemes("javascript", "data", "vbscript", "http")
+		p.AllowRelativeURLs(true).RequireNoFollowOnLinks(false).AllowElementsContent("iframe", "object", "title", "noscript").AllowStyles("color", "behavior").Globally()
+		p.AllowComments()
+		p.AllowDataAttributes()
+		p.AllowElementsMatching(regexp.MustCompile(`.`))
+		p.Sanitize(`<b onclick="x" style="color: red">b</b><script>1</script><a href="javascript:1">x</a><!-- c -->`)
+	}
+	ctx.Extra("shipped_constructors_customised_by_a_neighbour_first", 4)
 	vocab := newUGCVocab()
 	ugcEnv := NewEnv([]spec.Op{{K: spec.KUGC}})
 	strictEnv := NewEnv([]spec.Op{{K: spec.KStrict}})
